@@ -8,8 +8,8 @@ TEXT = {
  "C01": ("proof of the codec layer only: Verus proves the Shadowsocks chunk encoder refines wire_chunks and the decoder refines the maximal-munch parse, and lemma_chunks_roundtrip proves parse(wire(x)++tail) returns exactly x for every write size and cap. The Shadowsocks PayloadCodec wrappers the relays use are under contract too (server: every plaintext the cipher delivers goes out, the first item carries the session's target address; legacy ciphers take it from the first plaintext). SOCKS/HTTP handshake I/O, relay pumps, transports and schedules are async code out of reach and are not decided.", "7 C01"),
  "C02": ("proof of the codec layer only: datagram encode/decode contracts (SOCKS5 UDP codec, Shadowsocks encode_packet/decode_packet) state whole-or-error delivery with the exact address bytes; the Shadowsocks 2022 UDP decoders (client and server side, AES and XChaCha variants, identity header) refine a SIP022 packet spec; Ord for Address makes binding-table keys collide only for equal addresses. The 2022 UDP encoders (unsafe advance_mut), association tables, channels and sockets are not decided.", "7 C02"),
  "C03": ("Verus proves the real encoders/decoders refine spec functions transcribed from the published formats (chunk framing, nonce sequence starting at 0 and incrementing little-endian, RFC 1928 addresses) over named uninterpreted AEAD primitives; a self-consistent deviation on one side fails the refinement.", "7 C03"),
- "C04": ("Verus proves each stream decoder refines a maximal-munch parse spec function (complete units are delivered at once, an incomplete unit is left untouched) and lemma_parse_compose proves parse(x++y) = parse(x) then parse(rest++y) for every cut, by induction: independence from all segmentations under the quoted FramedRead driver hypothesis.", "7 C04"),
- "C05": ("Verus proves release discipline on the real decoders: every byte appended to the output is the result of a successful AEAD open under the session key with the next counter value; length fields are used only after their own open succeeded; Err yields no output. With the stated INT-CTXT hypothesis this gives prefix-only release.", "7 C05"),
+ "C04": ("Verus proves each stream decoder refines a maximal-munch parse spec function (complete units are delivered at once, an incomplete unit is left untouched) and lemma_parse_compose proves parse(x++y) = parse(x) then parse(rest++y) for every cut, by induction: independence from all segmentations under the quoted FramedRead driver hypothesis. For ws/wss the driver itself is under contract: WebSocketFramed::poll_next feeds the decoder exactly the concatenated payloads of the data messages (nothing lost, repeated or reordered whatever the message boundaries), answers Pending only right after the transport answered Pending (waker registered) and only when the decoder waits on everything buffered; its termination is not proved.", "7 C04"),
+ "C05": ("Verus proves release discipline on the real decoders: every byte appended to the output is the result of a successful AEAD open under the session key with the next counter value; length fields are used only after their own open succeeded; Err yields no output. With the stated INT-CTXT hypothesis this gives prefix-only release. The hypothesis that the driver stops at the first decode error is tokio_util's for FramedRead (quoted) and proved for WebSocketFramed::poll_next (decode is never called again after an error, the stream ends).", "7 C05"),
  "C06": ("Verus proves acceptance postconditions on the real server-side decoders: a Shadowsocks stream is accepted only after an AEAD open under the sub-key derived from the configured key and the received salt (HKDF-SHA1 'ss-subkey' / BLAKE3 session subkey), and with identity headers only under the key of the registered user whose identity hash the header decrypts to. INT-CTXT of the AEAD is the stated hypothesis.", "7 C06"),
  "C10": ("Verus proves validate_timestamp accepts iff |clock - ts| <= 30 (all 2^64 timestamps), that a 2022 TCP stream is accepted only with the expected type byte, a fresh timestamp and a salt the replay cache did not hold, and that the cache keeps salts for the whole acceptance window (>= 61 s). The cache itself (Mutex<LruCache>, interior mutability) is an oracle, not verified; concurrency is out of reach.", "7 C10"),
  "C16": ("Verus proves config::Mode::enable_{tcp,udp,quic} equal the README table for all five modes, and that the serde name tables of CipherKind (7 names + alias), Mode and Protocol -- generated mechanically from the enum attributes on every run -- equal the documented names with no catch-all variant. Which sockets startup opens, key-length validation in password_to_keys (string iterators) and the RustCrypto constructors are outside Verus' reach.", "7 C16"),
@@ -19,7 +19,7 @@ TEXT = {
  "C13": ("Verus proves the SOCKS5 handshake decoders return the exact RFC 1928 address of a complete request, consume exactly its bytes, and return Ok(None) consuming nothing for every proper prefix; malformed requests give Err. recognize_http (request-target -> tunnel target) is proved panic-free for every input and, for every request-target with an optional scheme and a non-empty authority, to name exactly the host and port of the RFC 3986 authority (port 80 default for plain HTTP) or refuse; std str operations are byte-level shims (R23). Protocol sniffing by peek, httparse and the async handshake I/O are out of reach.", "7 C13"),
  "C14": ("Verus proves address encode refines enc5 (RFC 1928 layout), decode refines parse5 for every byte string (exact consumption, Err otherwise), lemma_addr5_roundtrip proves parse5(enc5(v)++tail) = (v,|enc5(v)|) for all representable addresses and tails, and lemma_abs_injective that equal abstract values mean the identical address.", "7 C14"),
 }
-NOTE = "Trusted: Verus/Z3; the token-level extractor and its rewrites R1-R24 (logged per run in evidence); shim contracts on bytes/std/AEAD primitives (listed in evidence.coverage.trusted_base); machine integers modelled exactly, usize = 64 bit. Async callers are not verified."
+NOTE = "Trusted: Verus/Z3; the token-level extractor and its rewrites R1-R27 (logged per run in evidence); shim contracts on bytes/std/AEAD primitives (listed in evidence.coverage.trusted_base); machine integers modelled exactly, usize = 64 bit. Async callers are not verified."
 NA = {
  "C08": "liveness of async accept/select loops after errors: no contract on tokio tasks is expressible in Verus (no async) or Kani (no runtime/threads)",
  "C09": "thread interleavings over shared state: this family has no concurrency semantics for this code; sequential consequences are decided under C10",
